@@ -171,6 +171,9 @@ class TscRaceMonitor:
 
         def patched(ppart, starts, dens, box, weights, offset):
             mon.rec = RegionRecorder()
+            # what decides concurrency is the thread count in force when the deposit kernel is entered,
+            # not the one the caller asked for
+            mon.effective_threads = mon.numba.get_num_threads()
             mon.last_starts = np.array(starts)
             mon.last_ppart = ppart
             grid = RecGrid(dens, mon.rec)
